@@ -3,7 +3,7 @@ From Coq Require Import NArith List Bool.
 From Verif Require Import Sx Str Tok.
 From Verif.Gen Require Import IHateXml.
 From Verif.Model Require Import C20.
-From Verif.Proofs Require Import C20 C20f.
+From Verif.Proofs Require Import C20 C20f C20o.
 Import ListNotations.
 Local Open Scope N_scope.
 
@@ -27,12 +27,17 @@ Theorem c20_toxml_identity : forall c r, bmp (c :: r) -> first_ok c = true -> fo
   toXmlName (c :: r) = Some (c :: r).
 Proof. exact toxml_identity. Qed.
 
-(* reversibility and injectivity for names without a U+hex escape pattern (nopat), PARTIAL: proved for the
-   single-pass left-to-right decoder fromXmlName_lr.  The code's fromXmlName replaces the distinct matches one
-   after another in the iteration order of a Python set; its model (Model/C20.v: fromXmlName, order supplied by
-   the environment) is tied to the code by correspondence, and its agreement with the single-pass decoder on
-   encoded names for EVERY order is not proved here (it is tested by the correspondence run and the oracle). *)
-Theorem c20_fromxml_toxml_partial : forall n r, bmp n -> nopat n = true ->
+(* reversibility for names without a U+hex escape pattern (nopat) -- for the code's own decoder: fromXmlName
+   replaces the distinct findall matches one after another (str.replace) in the iteration order of a Python set;
+   the model takes that order from the environment (Model/C20.v: fromXmlName order name, None when [order] is not
+   an enumeration of the distinct matches) and the theorem holds for EVERY order: no replacement creates, destroys
+   or overlaps an occurrence of another item, because every U+5 pattern of a partially decoded name that does not
+   start at an escape would be a pattern of the original name.  c20_fromxml_toxml_lr is the same for the
+   single-pass left-to-right decoder, and injectivity follows. *)
+Theorem c20_fromxml_toxml : forall n r order, bmp n -> nopat n = true -> toXmlName n = Some r ->
+  same_set order (dedup (findall r)) = true -> fromXmlName order r = Some n.
+Proof. exact roundtrip_any_order. Qed.
+Theorem c20_fromxml_toxml_lr : forall n r, bmp n -> nopat n = true ->
   toXmlName n = Some r -> fromXmlName_lr r = n.
 Proof. exact roundtrip_lr. Qed.
 Theorem c20_toxml_injective : forall n1 n2 r, bmp n1 -> bmp n2 -> nopat n1 = true -> nopat n2 = true ->
@@ -41,8 +46,7 @@ Proof. exact toxml_injective. Qed.
 
 (* the decoder's input side: on an encoded name, replacementRegexp.findall returns exactly the escapes the encoder
    wrote, in order -- nothing of the original name is mistaken for an escape -- and unescapeChar maps each of them
-   back to the escaped character.  (What remains unproved for fromXmlName is only that the str.replace calls, in
-   any set order, touch exactly these occurrences.) *)
+   back to the escaped character. *)
 Theorem c20_findall_is_the_escapes : forall n r, bmp n -> nopat n = true -> toXmlName n = Some r ->
   findall r = match n with
               | [] => []
@@ -88,5 +92,8 @@ Example c20_example :
   toXmlName [48; 97; 32; 98] = Some [85;48;48;48;51;48;97;85;48;48;48;50;48;98] /\
   findall [85;48;48;48;51;48;97;85;48;48;48;50;48;98] = [[85;48;48;48;51;48]; [85;48;48;48;50;48]] /\
   nopat [48; 97; 32; 98] = true /\
-  coerceCharacters true [97; 12; 98] = [97; 32; 98].
+  coerceCharacters true [97; 12; 98] = [97; 32; 98] /\
+  (* both iteration orders of the two-element set *)
+  fromXmlName [[85;48;48;48;51;48]; [85;48;48;48;50;48]] [85;48;48;48;51;48;97;85;48;48;48;50;48;98] = Some [48; 97; 32; 98] /\
+  fromXmlName [[85;48;48;48;50;48]; [85;48;48;48;51;48]] [85;48;48;48;51;48;97;85;48;48;48;50;48;98] = Some [48; 97; 32; 98].
 Proof. repeat split; vm_compute; reflexivity. Qed.
